@@ -5,6 +5,16 @@ HERE = os.path.dirname(os.path.dirname(os.path.abspath(__file__)))
 
 CLAIMS = {
     # id: (category, technique, text, note, design_ref)
+    "C01": ("proof", "symbolic evaluation of every factor-release site to polynomial divisibility certificates (interprocedural function summaries, inferred loop invariants)",
+            "Every value that can reach util.AttachFactors is traced back through the Check body and the helper that produced it; "
+            "each return of each helper must carry a certificate that holds for all inputs: g = gcd(_, n) under 1 < g < n, "
+            "n // d for a certified d, or a pair whose product equals n as a polynomial identity under the dominating guards "
+            "(is_square facts, inferred invariant b2 = a^2 - n, guard equalities). The modulus in the certificate must be the "
+            "modulus of the very key whose test_info is written, and the attaching path must mark that key weak. "
+            "Divisibility and weak-marking are decided for all inputs and constructor parameters; properness only for the gcd-based sites.",
+            "Trusted: gmpy2 gcd/isqrt/is_square semantics, Python integer semantics, ast parser, the engine. "
+            "Not decided: properness of Fermat-style pairs (depends on runtime max_steps vs. primality).",
+            "DESIGN.md section 3 C01"),
     "C16": ("other", "typestate / who-may-write analysis over the AST + symbolic path walk of all 24 Check bodies",
             "Decides, for every path of every Check body in the package, that each loop iteration records exactly one "
             "result entry on that iteration's artifact with an entry created in the same iteration, that the positive flag, "
